@@ -228,7 +228,7 @@ func c10Case(w *core.Worker, i int) {
 		_ = os.RemoveAll(d)
 		copyDir(base, d)
 		c10Link(d, tx.links)
-	c10Stale(d, tx.stale)
+		c10Stale(d, tx.stale)
 		p := run(d, []string{"VERIF_CRASH_AT=" + at}, nil)
 		if p.Signal != 9 {
 			w.Inconclusive(fmt.Sprintf("crash at %s did not kill the process (%s)", at, p))
@@ -252,6 +252,7 @@ func c10Case(w *core.Worker, i int) {
 	if i < 3 {
 		w.Sample(map[string]interface{}{"program": tx.program, "tables": tx.tables, "crash_points": points})
 	}
+	c10Unencodable(w, i)
 	_ = os.RemoveAll(clean)
 	_ = os.RemoveAll(tr)
 }
@@ -316,7 +317,7 @@ func c10Syscalls(w *core.Worker, tx c10Tx, base string, run func(string, []strin
 			_ = os.RemoveAll(d)
 			copyDir(base, d)
 			c10Link(d, tx.links)
-	c10Stale(d, tx.stale)
+			c10Stale(d, tx.stale)
 			at := fmt.Sprintf("syscall:%s#%d", sc, n)
 			p := run(d, []string{"GOMAXPROCS=1"}, []string{"strace", "-f", "-o", "/dev/null", "-e", "trace=" + sc, "-e", fmt.Sprintf("inject=%s:signal=SIGKILL:when=%d", sc, n)})
 			if p.Signal != 9 && p.Code != 137 && p.Code != -1 {
@@ -356,4 +357,95 @@ func c10Syscalls(w *core.Worker, tx c10Tx, base string, run func(string, []strin
 		w.Case(core.Digest(txDigest, at), true)
 	}
 	w.Count("runs_with_the_rename_refused", int64(refused))
+}
+
+// c10Unencodable: the new contents of one table of the transaction cannot be written in the table's format (a column
+// name that is no JSON path, a line break for a fixed-length file, a TAB or a colon for LTSV, nothing at all for a file
+// without a header line). No new contents exist then, so the only admissible contents — at the normal end and at every
+// point the process can die at — are the complete previous ones, for that table and for the ordinary table updated in the
+// same transaction before or after it. (A csvq that reports success instead must have written something a fresh process
+// reads back with the record count the session saw.)
+func c10Unencodable(w *core.Worker, i int) {
+	files := map[string]string{
+		"a.csv":   "id,c1,c2\n1,a,b\n2,c,d\n3,e,f\n",
+		"t.jsonl": "{\"id\":1,\"c1\":\"a\",\"c2\":\"b\"}\n{\"id\":2,\"c1\":\"c\",\"c2\":\"d\"}\n",
+		"t.json":  "[{\"id\":1,\"c1\":\"a\",\"c2\":\"b\"},{\"id\":2,\"c1\":\"c\",\"c2\":\"d\"}]",
+		"t.csv":   "id,c1,c2\n1,a,b\n2,c,d\n",
+		"t.ltsv":  "id:1\tc1:a\tc2:b\nid:2\tc1:c\tc2:d\n",
+	}
+	type tpl struct{ table, stmts string }
+	tpls := []tpl{
+		{"t.jsonl", "ALTER TABLE `t.jsonl` RENAME c1 TO `na..me`; UPDATE `t.jsonl` SET id = id + 10;"},
+		{"t.json", "ALTER TABLE `t.json` RENAME c1 TO `na..me`; UPDATE `t.json` SET id = id + 10;"},
+		{"t.csv", "ALTER TABLE `t.csv` SET FORMAT TO FIXED; UPDATE `t.csv` SET c1 = 'a\\nb' WHERE id = 1;"},
+		{"t.ltsv", "ALTER TABLE `t.ltsv` RENAME c1 TO `a:b`; UPDATE `t.ltsv` SET id = id + 10;"},
+		{"t.csv", "ALTER TABLE `t.csv` SET HEADER TO FALSE; DELETE FROM `t.csv`;"},
+		{"t.csv", "ALTER TABLE `t.csv` SET FORMAT TO LTSV; UPDATE `t.csv` SET c1 = 'a\\tb' WHERE id = 1;"},
+		{"t.jsonl", "INSERT INTO `t.jsonl` VALUES (3, 'x', 'y'); ALTER TABLE `t.jsonl` RENAME c2 TO `[`;"},
+	}
+	tp := tpls[i%len(tpls)]
+	other := "UPDATE `a.csv` SET c2 = 'changed' WHERE id = 2;"
+	prog := other + "\n" + tp.stmts
+	if (i/len(tpls))%2 == 1 {
+		prog = tp.stmts + "\n" + other
+	}
+	prog += "\nSELECT COUNT(*) AS n FROM `" + tp.table + "`;"
+	base := core.FreshDir(w.Work, "ubase")
+	core.WriteFiles(base, files)
+	run := func(dir string, env []string) core.ProcResult {
+		return core.RunProc(core.ProcOpts{Dir: dir, Args: csvqArgs("-q", "-f", "CSV", "-N", "--wait-timeout", "1", prog), Env: env, Timeout: 60 * time.Second})
+	}
+	judge := func(dir, at string, res core.ProcResult) {
+		for _, name := range []string{"a.csv", tp.table} {
+			b, _ := os.ReadFile(filepath.Join(dir, name))
+			if string(b) != files[name] {
+				w.Violation("table-mixed@unencodable", fmt.Sprintf("the transaction cannot be written (%s), yet after %s table %s holds %d bytes %q instead of its previous contents (%d bytes)", truncateStr(res.Stderr, 120), at, name, len(b), truncateStr(string(b), 80), len(files[name])),
+					c10Replay{Files: files, Program: prog, CrashAt: at})
+			}
+		}
+	}
+	d := filepath.Join(w.Work, "urun")
+	_ = os.RemoveAll(d)
+	copyDir(base, d)
+	tracePath := filepath.Join(w.Work, "utrace.log")
+	_ = os.Remove(tracePath)
+	res := run(d, []string{"VERIF_TRACE=" + tracePath})
+	if strings.Contains(res.Stderr, "Fatal Error") || strings.Contains(res.Stderr, "panic:") {
+		w.Violation("clean-run-internal-failure", fmt.Sprintf("the transaction failed internally: %s", res), c10Replay{Files: files, Program: prog})
+		return
+	}
+	if res.Code == 0 {
+		// csvq found a way to write it: a fresh process must read back what the session saw
+		want := strings.TrimSpace(res.Stdout)
+		chk := core.RunProc(core.ProcOpts{Dir: d, Args: csvqArgs("-q", "-f", "CSV", "-N", "SELECT COUNT(*) FROM `"+tp.table+"`;"), Timeout: 60 * time.Second})
+		if got := strings.TrimSpace(chk.Stdout); chk.Code != 0 || got != want {
+			w.Violation("table-mixed@unencodable", fmt.Sprintf("csvq reported the transaction as committed; the session counted %s records in %s, a fresh process reads %q (exit %d %s)", want, tp.table, got, chk.Code, truncateStr(chk.Stderr, 120)),
+				c10Replay{Files: files, Program: prog, CrashAt: "normal end"})
+		}
+		w.Count("unencodable_transactions_csvq_wrote_anyway", 1)
+		w.Case(core.Digest("unenc", prog), true)
+		return
+	}
+	judge(d, "the normal end", res)
+	w.Count("transactions_whose_new_contents_cannot_be_written", 1)
+	w.Case(core.Digest("unenc", prog), strings.Contains(res.Stderr, "failed to commit"))
+	started := false
+	for _, e := range core.ReadTrace(tracePath) {
+		if e.Point == "txcommit.begin#1" {
+			started = true
+		}
+		if !started || strings.HasPrefix(e.Name, "worker.") {
+			continue
+		}
+		cd := filepath.Join(w.Work, "ucrash")
+		_ = os.RemoveAll(cd)
+		copyDir(base, cd)
+		p := run(cd, []string{"VERIF_CRASH_AT=" + e.Point})
+		if p.Signal != 9 {
+			continue
+		}
+		judge(cd, "dying at "+e.Point, res)
+		w.Count("crash_runs_of_unwritable_transactions", 1)
+		w.Case(core.Digest("unenc", prog, e.Point), true)
+	}
 }
